@@ -169,7 +169,9 @@ def s2c_clause(prop: str, rec: dict, o: dict, first: Optional[dict]) -> Optional
             elif rec["cmd"] == "lint" and M:
                 c = "C22.LintModified"
         elif prop == "C34":
-            if set(over) & M:
+            if rec.get("usage", "none") != "none":
+                c = None
+            elif set(over) & M:
                 c = "C34.SkippedRewritten"
             elif o["touched"] is not None and set(over) & set(o["touched"]):
                 c = "C34.SkippedParsed"
